@@ -14,7 +14,7 @@ import vf
 
 PROP = "C10"
 THEOREMS = ["read_prefix", "frame_codec_roundtrip", "commit_codec_roundtrip", "recover_committed_log", "recover_prefix",
-            "ack_durable_partial", "recover_idempotent", "repair_rewrite_kill_refuted"]
+            "ack_durable_partial", "recover_idempotent"]
 
 PRE = ("From Coq Require Import List NArith.\nFrom Echo Require Import Base.Bytes Model.Wal.\n"
        "Import ListNotations.\nOpen Scope N_scope.\n")
@@ -462,10 +462,7 @@ def rewrite_model(rw):
     return checked, differing, msgs
 
 
-# Not registered yet (the coordinator renames this to MANIFEST once `./check C10` exits 0, i.e. after the
-# findings `wal:idle-writer-epoch-skips-lsn` and `wal:repair-rewrite-not-crash-atomic` are fixed in /repo or
-# listed in known_findings.jsonl): the unchanged tree genuinely violates the property.
-MANIFEST_PENDING = {
+MANIFEST = {
     "category": "proof",
     "text": ("Coq theorems (no axioms, the hash function universally quantified) over an executable byte-level model of the "
              "causal WAL (disk records, frame/commit codecs and integrity checks, recovery, truncation repair): reading / "
@@ -478,12 +475,16 @@ MANIFEST_PENDING = {
              "recovered from bytes, truncated copies with every coexisting writer-epoch ledger are reopened by the store and "
              "by a fresh host (acknowledged submissions, outcomes, receipts, state root, frontier), recovered twice "
              "(idempotence), continued and retried (de-duplication), with injected store faults, kills inside an operation, "
-             "restarts, and the repair interrupted at chosen bytes (RLIMIT_FSIZE)."),
+             "restarts, and the repair interrupted at chosen bytes (RLIMIT_FSIZE). Two defects found this way were fixed in /repo "
+             "(e1d337c: a writer epoch following a commit-less epoch wrote an LSN hole that made the acknowledged log "
+             "unrecoverable; 5e38e24: the repair rewrite unlinked the segment before re-appending it); their reproducers stay "
+             "in corpus/C10 with the oracle signatures armed."),
     "note": ("Trusted: Coq kernel + vm_compute; props/c10.py (generator, table-of-real-digests instantiation of the hash, "
              "renderer); harness c10.rs; blake3 crate. Modelled rather than verified: causal_wal.rs disk-record layer, frame/"
              "commit codecs, validate_* and recover_* functions, rewrite_segment_records as Gallina functions. Partial: "
-             "ack_durable is proved for the append path only; host rollback after store faults, the writer-epoch ledger, "
-             "recovery idempotence and continuation equivalence are exercised by the tie, not proved; OS fsync/rename/"
+             "ack_durable is proved for the append path only (synced commit markers survive every later crash point) and "
+             "recover_idempotent for the store repair; host rollback after store faults, the writer-epoch ledger and "
+             "continuation equivalence are exercised by the tie, not proved; OS fsync/rename/"
              "directory durability is assumed (crash = byte prefix of the segment + old-or-new ledger); host payload "
              "semantics, contract packages and provenance replay are not modelled. Idle scheduler passes advance an "
              "in-memory global tick that is not durable: following the repo's own recovery tests, continuation runs are "
